@@ -31,7 +31,7 @@ META = {
                    'PostgreSQL (standard_conforming_strings=on, E\'\' strings), Firebird/Sybase/MaxDB/MSSQL (ANSI quote doubling) '
                    'written from documentation, not executable here; SQLite lexer cross-checked by execution.'),
     'rule': ('cases = (dialect, value) and (dialect, statement kind, names, values); exhaustive strings of length <= 3 over a '
-             '17-character metacharacter alphabet x 7 dialects, seeded random full-range unicode strings, typed values, statements; '
+             '17-character metacharacter alphabet (thorough: length 4 over 12 of them) x 7 dialects, seeded random full-range unicode strings, typed values, statements; '
              'distinct = distinct (dialect, value/statement); non-trivial = the value contains a metacharacter or is not a plain string'),
     'trusted': ['reference string lexers mysql / postgres E\'\' / ANSI (Model/Lex.lean lexBody, python transcription in harness/c02.py)',
                 'reference statement tokenizer (Model/Lex.lean tokens): words, punctuation, string literals; comments and '
@@ -437,17 +437,13 @@ def gen_strings(ctx):
                     out.append(dec(line))
     except OSError:
         pass
-    maxlen = 3 if (ctx.tier == 'thorough' or ctx.deep) else 2
-    for n in range(1, maxlen + 1):
+    for n in range(1, 4):
         for tup in itertools.product(META_ALPHABET, repeat=n):
             out.append(''.join(tup))
-    if maxlen < 3:
-        # the full length-3 space over the core metacharacters, a seeded sample of the rest
-        core = ["'", '\\', '\x00', '\n', '1', 'E', '%']
-        for tup in itertools.product(core, repeat=3):
+    if ctx.tier == 'thorough' or ctx.deep:
+        core = ["'", '\\', '\x00', '\n', '\r', '1', 'E', '%', '_', '-', ';', '\x1a']
+        for tup in itertools.product(core, repeat=4):
             out.append(''.join(tup))
-        for _ in range(1500):
-            out.append(''.join(rng.choice(META_ALPHABET) for _ in range(3)))
     for _ in range(ctx.budget(2500, 120000)):
         out.append(rand_string(rng, rng.choice([4, 8, 8, 20])))
     return out
